@@ -251,6 +251,14 @@ def plan(tier, seed):
             p.append(("driver", dict(skeleton=sk, kind=kind, target=target, n=2)))
     for sk in ("T1", "T3", "T5", "T2c", "TX"):
         p.append(("traffic", dict(skeleton=sk, n=2)))
+    # two zones with a time change in one of them (series with the same first hour and length, different hours)
+    p.append(("traffic", dict(skeleton="TH", n=5)))
+    # two distinct countries carrying the same name and short name on one network
+    for kind, target in (("country.average_carbon_intensity", "fr"), ("country.average_carbon_intensity", "de"), ("network.bandwidth_energy_intensity", "net")):
+        p.append(("driver", dict(skeleton="T2c", kind=kind, target=target, n=2, args={"same_names": True})))
+    p.append(("driver_edit", dict(skeleton="T2c", kind="country.average_carbon_intensity", target="de", n=2, args={"same_names": True})))
+    for kind, target in (("country.average_carbon_intensity", "de"), ("network.bandwidth_energy_intensity", "net"), ("job.data_transferred", "job")):
+        p.append(("driver", dict(skeleton="TH", kind=kind, target=target, n=5)))
     # a usage pattern with two devices (partially driven device footprints), also with two devices named alike
     for same in (False, True):
         for kind, target in (("device.power", "dev"), ("device.power", "dev2"), ("device.carbon_footprint_fabrication", "dev"),
